@@ -80,6 +80,9 @@ type HarnessResult struct {
 	Stubs        []string       `json:"stubs,omitempty"`
 	Steps        int            `json:"steps"`
 	Witnesses    []Witness      `json:"witnesses,omitempty"`
+	// Fallback: inputs reaching a construct the executor cannot interpret; the
+	// check runs them natively (sampling, reported as such, never as coverage)
+	Fallback []PathSample `json:"fallback,omitempty"`
 }
 
 type PathSample struct {
@@ -538,6 +541,9 @@ func RunHarness(ex *Exec, s *Solver, h *ssa.Function, maxPaths int, budget time.
 	sat0, unsat0, secs0 := s.nSat, s.nUnsat, s.secs
 	s.Push()
 	x.baseLvl = s.level
+	// Go runs the initialisers of the harness's own package (and, from there,
+	// lazily those of the packages it touches) before any harness code
+	ex.ensureInit(h.Pkg)
 	first := true
 	for first || x.backtrack() {
 		first = false
@@ -589,6 +595,9 @@ func RunHarness(ex *Exec, s *Solver, h *ssa.Function, maxPaths int, budget time.
 			}
 		case "unsupported":
 			res.Unsupported[pr.detail]++
+			if len(res.Fallback) < 48 && s.Check() == "sat" {
+				res.Fallback = append(res.Fallback, PathSample{Path: x.pathIdx, Outcome: "unsupported", Model: x.model(), Notes: map[string]string{"unsupported": pr.detail}})
+			}
 		case "engine-bug":
 			res.EngineBugs = append(res.EngineBugs, pr.detail)
 			if len(res.EngineBugs) > 3 {
